@@ -357,3 +357,36 @@ def c18_r8(ctx):
                loc=ctx.nodeloc(tm, bare[0].iter) if bare else None)
     if n < 1:
         raise AnalysisError("no terms reader sorts in terms_from() any more; re-confirm the rule")
+
+
+@rule("C18", "R9", "K6", "a list matcher that is given a scorer is given the term's statistics too",
+      min_instances=1, also=("C05", "C12"),
+      clause="ListMatcher.block_min_length()/block_max_length() read self._terminfo unconditionally, and every length-normalising "
+             "scorer calls them as soon as a search has a limit (block quality).  So every `ListMatcher(...)` in the package that "
+             "passes a scorer also passes terminfo=.  The memory codec's terms reader did not: a BufferedWriter's searcher crashed "
+             "on any limited search that matched a buffered document.")
+def c18_r9(ctx):
+    prog = ctx.prog
+    init = prog.method("matching.mcore.ListMatcher", "__init__", inherited=False)
+    n = 0
+    for f in sorted(prog.functions.values(), key=lambda f: f.qualname):
+        if f.module.name.startswith(("whoosh.lang", "whoosh.support")):
+            continue
+        for c in norm.calls_in(f.node):
+            if norm.call_name(c) != "ListMatcher":
+                continue
+            m, _ = bind_args(c, init, skip_self=True)
+            if not m or "scorer" not in m:
+                continue
+            sc = m["scorer"]
+            if isinstance(sc, ast.Constant) and sc.value is None:
+                continue
+            n += 1
+            ctx.saw(f)
+            ti = m.get("terminfo")
+            ok = ti is not None and not (isinstance(ti, ast.Constant) and ti.value is None)
+            ctx.ob(f, ok, "ListMatcher(..., scorer=%s) is also given terminfo" % norm.canon(sc),
+                   detail="" if ok else "block_min_length()/block_max_length() dereference a None terminfo when the collector asks for "
+                                        "block quality", loc=ctx.nodeloc(f, c))
+    if n == 0:
+        raise AnalysisError("no scored ListMatcher is built any more")
